@@ -56,16 +56,25 @@ def run(cx):
         angle_interval_new_shape(cx, bi)
     b = cx.fn('geom2::aabb2::arc_aabb2')
     if b:
+        from vpa import comp as CP
         r = cx.retval(b)
-        ok = match('(call Aabb::from_points (call Iterator::collect (call Iterator::map $a (closure * (param circle)))))', r) is not None
-        inits, elems = cx.pushes(b, match('(call Aabb::from_points (call Iterator::collect (call Iterator::map $a _)))', r)['a']) if ok else ([], [])
-        oki = any(match('(veclit (agg array (0 (param angle0)) (1 (add (param angle0) (param angle)))))', i) is not None for i in inits)
-        okp = len(elems) == 1 and match('(mul (cast f64 (itervar (range 0 4))) FRAC_PI_2)', elems[0][2][0]) is not None or \
-            (len(elems) == 1 and match('(mul (cast f64 (itervar (range 0 4))) (call f64::FRAC_PI_2))', elems[0][2][0]) is not None)
-        pushes = b.calls('Vec::push')
-        okg = len(pushes) == 1 and cx.guarded(b, pushes[0].bb, '(call *AngleInterval::contains (call *AngleInterval::new (param angle0) (param angle)) _)', True) is not None
-        for cl in cx.facts.closures_of(b.name):
-            ok = ok and match('(call *Circle2::point_at_angle (field cap:circle (param 1)) (param 2))', cx.retval(cl)) is not None
+        ev = match('(call Aabb::from_points $v)', r)
+        outer = [c for c in CP.comprehensions(cx, b, ev['v']) if c.get('elem') is not None] if ev else []
+        ok = len(outer) == 1 and not outer[0]['conds'] and match('(call *Circle2::point_at_angle (param circle) (index $a _))', outer[0]['elem']) is not None
+        oki = okp = okg = False
+        ea = match('(call Iterator::collect (call Iterator::map $a _))', ev['v']) if ev else None
+        if ok and ea is not None:
+            inner = CP.comprehensions(cx, b, ea['a'])
+            inits = [c['init'] for c in inner if c.get('form') == 'init']
+            els = [c for c in inner if c.get('elem') is not None]
+            oki = len(inits) == 1 and match('(veclit (agg array (0 (param angle0)) (1 (add (param angle0) (param angle)))))', inits[0]) is not None
+            T = None
+            if len(els) == 1:
+                T = match('(mul (cast f64 (itervar (range 0 4))) FRAC_PI_2)', els[0]['elem']) or match('(mul (cast f64 (itervar (range 0 4))) (call f64::FRAC_PI_2))', els[0]['elem'])
+                okp = T is not None
+                okg = len(els[0]['conds']) == 1 and els[0]['conds'][0][1] and \
+                    match('(call *AngleInterval::contains (call *AngleInterval::new (param angle0) (param angle)) $t)', els[0]['conds'][0][0]) is not None and \
+                    match('(call *AngleInterval::contains _ $t)', els[0]['conds'][0][0])['t'] == els[0]['elem']
         cx.ob('EXPR', 'arc_aabb2', ok and oki and okp and okg,
               'candidates are the two end angles plus i*pi/2 (i in 0..4) that AngleInterval::new(angle0, angle) contains, mapped through circle.point_at_angle (centre included)', where=b.file)
     # ---------------------------------------------------------------- intersections_with
